@@ -104,17 +104,17 @@ uint64_t drv_vss_decode(void *msg, char *path_dst, void *arr_dst) {
 }
 
 uint64_t drv_vss_strarr(uint8_t *packed, char **strs, const uint16_t *lens, int n, char **dst) {
-    VssDataString_t in[8], out[8];
-    VssDataString_t *inp[8], *outp[8];
+    VssDataString_t in[48], out[48];
+    VssDataString_t *inp[48], *outp[48];
     VssDataStringArray_t arr;
     uint64_t h = 1469598103934665603ULL;
     int i;
-    if (n > 8) n = 8;
+    if (n > 48) n = 48;
     for (i = 0; i < n; i++) {
         in[i].data_length = lens[i]; in[i].data = strs[i]; inp[i] = &in[i];
         out[i].data_length = 0; out[i].data = dst[i]; outp[i] = &out[i];
     }
-    arr.data_length = 0;
+    arr.data_length = (uint16_t)(0xA5A5 ^ n);  /* an output of the call: whatever the caller's descriptor held before does not matter */
     arr.data = packed;
     Avtp_Vss_SerializeStringArray(&arr, inp, (uint16_t)n);
     h = (h ^ arr.data_length) * 1099511628211ULL;
@@ -122,4 +122,18 @@ uint64_t drv_vss_strarr(uint8_t *packed, char **strs, const uint16_t *lens, int 
     Avtp_Vss_DeserializeStringArray(&arr, outp, (uint16_t)n);
     for (i = 0; i < n; i++) h = (h ^ out[i].data_length) * 1099511628211ULL;
     return h;
+}
+
+/* pack only: the descriptor's length field holds `stale_len` when the call is made (it is an output); returns data_length << 16 | count */
+uint64_t drv_vss_strarr_pack(uint8_t *packed, char **strs, const uint16_t *lens, int n, uint16_t stale_len) {
+    VssDataString_t in[48];
+    VssDataString_t *inp[48];
+    VssDataStringArray_t arr;
+    int i;
+    if (n > 48) n = 48;
+    for (i = 0; i < n; i++) { in[i].data_length = lens[i]; in[i].data = strs[i]; inp[i] = &in[i]; }
+    arr.data_length = stale_len;
+    arr.data = packed;
+    Avtp_Vss_SerializeStringArray(&arr, inp, (uint16_t)n);
+    return ((uint64_t)arr.data_length << 16) | Avtp_Vss_GetVSSDataStringArrayLength(&arr);
 }
